@@ -925,11 +925,16 @@ def planner(
                 log.info("No range scans allowed %s", query_items)
             continue
 
+        limit = default_limit or query.limit
+        if default_limit is None:
+            # a client query is never allowed more than Config.max_limit events
+            if limit is None or limit > Config.max_limit:
+                limit = Config.max_limit
         plan = QueryPlan(
             query_items,
             best_index,
             matches,
-            default_limit or query.limit,
+            limit,
             query.since,
             query.until,
             {},
